@@ -209,8 +209,13 @@ func (mbs *metadataPartStorage) AppendObject(ctx context.Context, bucketName sto
 			return storage.ErrTooManyParts
 		}
 
+		// Only the null version may be extended in place. With versioning enabled,
+		// or in a suspended bucket whose current version is not the null version,
+		// the result is stored as a new version row next to the existing one.
+		storesNewVersion := versioningEnabled || (existingObject != nil && existingObject.VersionID != nil && *existingObject.VersionID != "null")
+
 		if existingObject != nil {
-			if versioningEnabled {
+			if storesNewVersion {
 				// The new version shares the unchanged prefix. Pre-acquiring registry
 				// references prevents a concurrent delete from condemning those parts.
 				allParts = make([]metadatastore.Part, 0, len(existingObject.Parts)+1)
